@@ -112,6 +112,24 @@ Lemma flat_map_fst {X} (l : list (string * X)) :
   flat_map (fun nx : string * X => [fst nx; (fst nx +++ "*")%string]) l = flat_map (fun n : string => [n; (n +++ "*")%string]) (map fst l).
 Proof. induction l as [|x l IH]; [reflexivity|]. simpl. rewrite IH. reflexivity. Qed.
 
+(* the general form: distinct sequence names, distinct structure names, no '*' anywhere, no structure named like a sequence *)
+Theorem rec_names_nodup_gen p : LI p ->
+  (forall n, In n (map fst (p_bases p) ++ map fst (p_sups p)) -> nostar n) ->
+  (forall n, In n (map fst (p_structs p)) -> nostar n) ->
+  (forall n, In n (map fst (p_structs p)) -> In n (map fst (p_bases p) ++ map fst (p_sups p)) -> False) ->
+  NoDup (rec_names p).
+Proof. intros I NSQ NST DISJ. unfold rec_names. rewrite !flat_map_fst, <- flat_map_app.
+  assert (PAIRS : NoDup (flat_map (fun n : string => [n; (n +++ "*")%string]) (map fst (p_bases p) ++ map fst (p_sups p)))).
+  { apply star_pairs_nodup; [apply (li_nd_seq p I) | exact NSQ]. }
+  assert (G : forall a b : list string, NoDup a -> NoDup b -> (forall x, In x a -> In x b -> False) -> NoDup (a ++ b)).
+  { induction a as [|x a IHa]; intros b Na Nb D; [exact Nb|]. inversion Na as [|? ? N1 N2]; subst. simpl. constructor.
+    - rewrite in_app_iff. intros [C|C]; [exact (N1 C) | apply (D x (or_introl eq_refl) C)].
+    - apply IHa; [exact N2 | exact Nb | intros y Ha Hb; apply (D y (or_intror Ha) Hb)]. }
+  apply G; [apply (li_nd_struct p I) | exact PAIRS|].
+  intros x Hs Hp. destruct (star_pairs_In _ _ Hp) as [m [Hm [E|E]]].
+  - subst m. apply (DISJ x Hs Hm).
+  - apply (starred_has_star m). rewrite <- E. apply NST, Hs. Qed.
+
 Theorem rec_names_nodup c p : WF c -> NI c -> nostar (c_prefix c) -> load_spec (emit_comp c) pspec0 = OK p -> NoDup (rec_names p).
 Proof. intros W [NSTAR DISJ] NP L. pose proof (load_spec_LI _ _ _ LI_empty L) as I. destruct (load_spec_names _ _ _ L) as [NB [NU NT]].
   assert (HB : forall n, In n (map fst (p_bases p)) -> exists m, n = c_prefix c +++ m /\ In m (map fst (c_bases c))).
